@@ -15,6 +15,8 @@
 package internal
 
 import (
+	"bytes"
+	"io"
 	"maps"
 	"net/http"
 	"slices"
@@ -57,6 +59,14 @@ func (r *responseStorer) StoreResponse(
 	reqTime, respTime time.Time,
 	refIndex int,
 ) error {
+	// Read the body here rather than leaving it to the serialization: when the drain
+	// inside [httputil.DumpResponse] fails, the bytes read so far are dropped and the
+	// caller is left with the consumed body - an empty one without any error when only
+	// Close failed.
+	if err := bufferBody(resp); err != nil {
+		return err
+	}
+
 	// Remove hop-by-hop headers as per RFC 9111 §3.1
 	removeHopByHopHeaders(resp)
 
@@ -108,3 +118,26 @@ func (r *responseStorer) StoreResponse(
 
 	return r.cache.SetRefs(urlKey, refs)
 }
+
+// bufferBody reads the body of resp into memory and replaces it by a reader over the
+// bytes read. When reading fails the caller still gets those bytes, followed by the
+// error, and nothing is stored; an error from Close after a complete read does not
+// take the body away from anyone.
+func bufferBody(resp *http.Response) error {
+	if resp.Body == nil || resp.Body == http.NoBody {
+		return nil
+	}
+	var buf bytes.Buffer
+	_, err := buf.ReadFrom(resp.Body)
+	_ = resp.Body.Close()
+	if err != nil {
+		resp.Body = io.NopCloser(io.MultiReader(bytes.NewReader(buf.Bytes()), failingReader{err}))
+		return err
+	}
+	resp.Body = io.NopCloser(bytes.NewReader(buf.Bytes()))
+	return nil
+}
+
+type failingReader struct{ err error }
+
+func (r failingReader) Read([]byte) (int, error) { return 0, r.err }
